@@ -233,6 +233,226 @@ fn c08_read_step_n3() {
     read_step::<3>(0);
 }
 
+// ------------------------------------------------------------------------------------------------
+// try_read with a RECORDING reader (no byte copy): `try_read` is generic over `BufMut` and only uses
+// remaining_mut / has_remaining_mut / put(Bytes). The recording sink notes, for every chunk it is
+// handed, WHERE the chunk lives (address) and how long it is. Since every stored fragment is a
+// zero-copy slice of the one underlying static sequence SEQ, "the bytes handed to the reader are
+// exactly the next contiguous bytes of the stream, each once, in order" is the statement that the
+// k-th chunk starts at &SEQ[position reached so far] — checked by address, without copying or
+// comparing bytes. (MEASURED: the byte-copying Sink above costs 957 s / 112 s with per-loop
+// bounds for one stored segment; the recording sink needs no buffer, so the reader's capacity can
+// be ANY usize.) The byte-copying variant (c08_read_step_n1) stays in the thorough tier.
+struct RecSink {
+    cap: usize,
+    used: usize,
+    nput: usize,
+    ptr: [*const u8; 3],
+    len: [usize; 3],
+}
+
+unsafe impl BufMut for RecSink {
+    fn remaining_mut(&self) -> usize {
+        self.cap - self.used
+    }
+    unsafe fn advance_mut(&mut self, _cnt: usize) {
+        unreachable!("recording sink: advance_mut is not used by try_read")
+    }
+    fn chunk_mut(&mut self) -> &mut bytes::buf::UninitSlice {
+        unreachable!("recording sink: chunk_mut is not used by try_read")
+    }
+    fn put<T: Buf>(&mut self, mut src: T)
+    where
+        Self: Sized,
+    {
+        // BufMut::put's contract: panics if there is not enough room
+        assert!(self.remaining_mut() >= src.remaining(), "put: reader buffer overrun");
+        let (p, l) = {
+            let s = src.chunk();
+            (s.as_ptr(), s.len())
+        };
+        assert!(l == src.remaining(), "put: source is one contiguous chunk");
+        assert!(self.nput < 3, "recording sink: more chunks than slots");
+        let mut k = 0;
+        while k < 3 {
+            if k == self.nput {
+                self.ptr[k] = p;
+                self.len[k] = l;
+            }
+            k += 1;
+        }
+        self.nput += 1;
+        self.used += l;
+        src.advance(l);
+    }
+}
+
+/// After `try_read`: the recorded chunks are exactly SEQ[nread-base .. nread-base+n), in order.
+fn check_chunks<const N: usize>(sink: &RecSink, base: u64, nread: u64, n: usize) {
+    assert!(sink.used == n, "the reader's fill level advanced by the returned count");
+    assert!(sink.nput <= N, "at most one chunk per stored segment");
+    let mut pos = nread;
+    let mut k = 0;
+    while k < N {
+        if k < sink.nput {
+            assert!(sink.len[k] > 0, "no empty chunk is handed over");
+            let want = unsafe { SEQ.as_ptr().add((pos - base) as usize) };
+            assert!(sink.ptr[k] == want, "chunk k is the slice of the stream that starts where chunk k-1 ended");
+            pos += sink.len[k] as u64;
+        }
+        k += 1;
+    }
+    assert!(pos == nread + n as u64, "chunk lengths add up to the returned count");
+}
+
+fn read_rec_step<const N: usize>(base: u64) {
+    let mut buf = any_buf::<N>(base);
+    let cap: usize = kani::any(); // ANY reader capacity
+    let nread = buf.nread;
+    let avail = buf.available();
+    let readable = buf.is_readable();
+    assert!(readable == (avail > 0), "is_readable <=> some contiguous byte is available");
+    assert!(avail <= base + W as u64 - nread);
+    // model of the contiguous prefix: every x in [nread, nread+avail) is stored, the byte right
+    // after it is not
+    let x: u64 = kani::any();
+    kani::assume(x >= base && x < base + W as u64);
+    let cov_before = covered(&buf, base, x);
+    if x >= nread && x < nread + avail {
+        assert!(cov_before);
+    }
+    if x == nread + avail {
+        assert!(!cov_before, "the prefix reported by available() is maximal");
+    }
+    let largest = buf.largest_offset;
+
+    let mut sink = RecSink { cap, used: 0, nput: 0, ptr: [core::ptr::null(); 3], len: [0; 3] };
+    let n = buf.try_read(&mut sink);
+
+    check_inv(&buf);
+    let expect = if (cap as u64) < avail { cap as u64 } else { avail };
+    assert!(n as u64 == expect, "reads min(capacity, contiguous available): never past a gap, never less than possible");
+    assert!(buf.nread == nread + n as u64, "read position advances by the count");
+    assert!(buf.largest_offset == largest, "reading does not change the highest offset seen");
+    check_chunks::<N>(&sink, base, nread, n);
+    assert!(buf.available() == avail - n as u64);
+    // each byte once: what was handed over is gone, everything else is still stored
+    let cov_after = covered(&buf, base, x);
+    let was_read = x >= nread && x < nread + n as u64;
+    assert!(cov_after == (cov_before && !was_read), "exactly the bytes handed over leave the buffer");
+    kani::cover!(n > 0 && (n as u64) < avail, "partial read of the available prefix");
+    kani::cover!(n > 0 && n as u64 == avail && (cap as u64) > avail, "read drained the prefix");
+    kani::cover!(N < 2 || sink.nput == 2, "read spans two adjacent segments");
+    kani::cover!(N < 2 || (n as u64 == avail && buf.segments.len() == 1), "read stops at a gap");
+    kani::cover!(cap == 0 && avail > 0, "zero-capacity reader");
+    core::mem::forget(buf);
+}
+
+#[kani::proof]
+#[kani::unwind(8)]
+#[kani::stub(core::slice::index::slice_index_fail, stub_slice_index_fail)]
+fn c08_read_rec_step_n0() {
+    // nothing stored: nothing is readable whatever the capacity
+    let base = any_base();
+    let mut buf = any_buf::<0>(base);
+    let nread = buf.nread;
+    assert!(buf.available() == 0 && !buf.is_readable());
+    let mut sink = RecSink { cap: kani::any(), used: 0, nput: 0, ptr: [core::ptr::null(); 3], len: [0; 3] };
+    let n = buf.try_read(&mut sink);
+    assert!(n == 0 && sink.nput == 0 && buf.nread == nread);
+    assert!(buf.try_next().is_none());
+    kani::cover!(nread > base && sink.cap > 0, "everything received so far was read");
+    core::mem::forget(buf);
+}
+
+#[kani::proof]
+#[kani::unwind(8)]
+#[kani::stub(core::slice::index::slice_index_fail, stub_slice_index_fail)]
+fn c08_read_rec_step_n1() {
+    read_rec_step::<1>(0);
+}
+
+#[kani::proof]
+#[kani::unwind(8)]
+#[kani::stub(core::slice::index::slice_index_fail, stub_slice_index_fail)]
+fn c08_read_rec_step_n2() {
+    read_rec_step::<2>(0);
+}
+
+#[kani::proof]
+#[kani::unwind(8)]
+#[kani::stub(core::slice::index::slice_index_fail, stub_slice_index_fail)]
+fn c08_read_rec_step_n3() {
+    read_rec_step::<3>(0);
+}
+
+/// Two steps at the smallest shape: one stored segment, `recv` of an arbitrary fragment, then
+/// `try_read` with ANY capacity. The reader gets exactly the contiguous prefix of
+/// (stored bytes) U (unread part of the fragment), by address, and nothing beyond the first gap.
+fn recv_then_read<const N: usize>() {
+    let base = 0u64;
+    let mut buf = any_buf::<N>(base);
+    let off: u64 = kani::any();
+    let len: u64 = kani::any();
+    kani::assume(off <= W as u64 && len <= W as u64 && off + len <= W as u64);
+    let nread = buf.nread;
+    let x: u64 = kani::any();
+    kani::assume(x < W as u64);
+    let cov_before = covered(&buf, base, x);
+    let have = cov_before || (x >= off && x < off + len && x >= nread);
+
+    buf.recv(off, content(base, off, off + len));
+
+    let cap: usize = kani::any();
+    let mut sink = RecSink { cap, used: 0, nput: 0, ptr: [core::ptr::null(); 3], len: [0; 3] };
+    let n = buf.try_read(&mut sink);
+
+    check_inv(&buf);
+    assert!(n <= cap && buf.nread == nread + n as u64);
+    assert!(sink.used == n && sink.nput <= 3);
+    // chunks: consecutive slices of SEQ starting at nread
+    let mut pos = nread;
+    let mut k = 0;
+    while k < 3 {
+        if k < sink.nput {
+            assert!(sink.len[k] > 0);
+            assert!(sink.ptr[k] == unsafe { SEQ.as_ptr().add((pos - base) as usize) }, "bytes handed over are the next bytes of the stream");
+            pos += sink.len[k] as u64;
+        }
+        k += 1;
+    }
+    assert!(pos == nread + n as u64);
+    // exactly the contiguous prefix that has fully arrived: every byte handed over had arrived ...
+    if x >= nread && x < nread + n as u64 {
+        assert!(have, "a byte that never arrived is never handed to the reader");
+    }
+    // ... and the read stops only at the capacity or at the first missing byte
+    if n < cap && x == nread + n as u64 {
+        assert!(!have, "the read did not stop before the first gap");
+    }
+    // bytes that arrived but were not read are still stored
+    if x >= nread + n as u64 {
+        assert!(covered(&buf, base, x) == have);
+    }
+    kani::cover!(N == 0 || (sink.nput == 2 && !cov_before && x >= nread && x < nread + n as u64), "fragment filled the hole in front of the stored segment and both were read");
+    kani::cover!(n > 0 && n < cap && nread + (n as u64) < W as u64, "read stopped at a gap");
+    core::mem::forget(buf);
+}
+
+#[kani::proof]
+#[kani::unwind(8)]
+#[kani::stub(core::slice::index::slice_index_fail, stub_slice_index_fail)]
+fn c08_recv_then_read_n0() {
+    recv_then_read::<0>();
+}
+
+#[kani::proof]
+#[kani::unwind(8)]
+#[kani::stub(core::slice::index::slice_index_fail, stub_slice_index_fail)]
+fn c08_recv_then_read_n1() {
+    recv_then_read::<1>();
+}
+
 fn next_step<const N: usize>(base: u64) {
     let mut buf = any_buf::<N>(base);
     let nread = buf.nread;
